@@ -1,5 +1,5 @@
 """C01 -- the returned upper bound is backed by a complete, checkable dual certificate."""
-from . import pepsolve, wrappers, formula
+from . import pepsolve, wrappers, formula, dictops
 
 LEVEL = "other"
 EXPLANATION = ("Structure of the certificate bookkeeping on every path: every send is paired with the tracking append of the same object and the "
@@ -19,6 +19,7 @@ def run(ctx):
     wrappers.r_sign(ctx)
     pepsolve.r_ret(ctx)
     pepsolve.r_order(ctx)
+    dictops.r_dictops(ctx)      # the constant of the identity is read from prune(symmetrize(decomposition))
     nl = formula.r_class_lmi_symmetric(ctx)
     r_user_lmi(ctx)
     ctx.floor("send/track pairs", n, 8)
